@@ -77,6 +77,10 @@ Inductive rcase :=
 | RcFront (has_lk : bool) (entry : lookup_res) (has_home : bool) (eps : list bytes)
           (sniff_ok : bool) (name : bytes) (ip : bool) (dial_ok : bool)
           (obs_joined obs_closed : bool)
+(** one server, a history of lookup changes (as tables), registry changes
+    and dials; observed: the projected decision of every dial *)
+| RcHist (has_home : bool) (evs : list (N * list (bytes * lookup_res) * list bytes * bytes))
+         (obs : list (N * bytes))
 | RcOffice (ops : list op) (expect : list obs)
 | RcConns (ops : list cop) (expect : list cobs)
 | RcIds (n : nat) (sorted_ids : list N)
@@ -117,6 +121,25 @@ Definition check_case (c : rcase) : bool :=
                   (if obs_joined then true else Bool.eqb (fo_front_closed o) obs_closed)
       | _ => false
       end
+  | RcHist has_home evs obs =>
+      (* event kinds: 0 the lookup now answers by this table (a name it does not list: (nil, error)),
+         1 these endpoints are now connected, 2 a dial of this name *)
+      let ev := fun e : N * list (bytes * lookup_res) * list bytes * bytes =>
+        let '(k, table, eps, sni) := e in
+        match k with
+        | 0 => EvLookup (fun d => match assoc_bytes d table with Some x => x | None => mkLk None true end)
+        | 1 => EvRegistry (fun n => index_bytes n eps 0)
+        | _ => EvDial sni
+        end in
+      let is_ip := fun _ : bytes => false in
+      let none := fun _ : bytes => mkLk None true in
+      let noreg := fun _ : bytes => @None N in
+      let got := run_hist is_ip gen_lookup_store gen_rejected_steps gen_dial_steps true has_home
+                          none noreg [] (map ev evs) in
+      let spec := spec_hist is_ip gen_rejected_suffixes true has_home none noreg (map ev evs) in
+      let code_eqb := fun a b : N * bytes => (fst a =? fst b) && beqb (snd a) (snd b) in
+      list_eqb code_eqb (map (route_code []) got) obs &&
+      list_eqb code_eqb (map (route_code []) spec) obs
   | RcOffice ops expect => list_eqb obs_eqb (snd (run office_init ops)) expect
   | RcConns ops expect => list_eqb cobs_eqb (snd (crun ctable_init ops)) expect
   | RcIds n ids => list_eqb N.eqb (ids_of (snd (run office_init (repeat ONext n)))) ids
